@@ -50,25 +50,11 @@ theorem revertTransactionAt_sem (cb : Callbacks) (te : TypeEnv) (env : Env) (b l
 open Ledger.Sql.Run
 
 /-- Two transactions; revert #1 at t=20, again at t=30, and a non-existent #3: the table equals
-    `Spec.markReverted` applied in order (the first date is kept) … -/
-example : revertedAbs (run w1 (on 1 (mkTx 1 10 "{\"k\":\"v\"}" ++ mkTx 2 11 "{}" ++ revertAt 1 20 ++ revertAt 1 30 ++ revertAt 3 31))).1 =
-    specReverted [1, 2] [(1, 20), (1, 30), (3, 31)] := by
-  decide +kernel
-
-/-- … and the answers carry `modified = true` the first time, `false` the second time, no row for #3. -/
-example : lastCols ((run w1 (on 1 (mkTx 1 10 "{\"k\":\"v\"}" ++ mkTx 2 11 "{}" ++ revertAt 1 20 ++ revertAt 1 30 ++ revertAt 3 31))).2.drop 2) =
-    [["true"], ["false"], []] := by
-  decide +kernel
-
-/-- Transaction metadata: `UpdateTransactionMetadata` merges (`modified` only when something changes),
-    `DeleteTransactionMetadata` removes a key (`modified` only when the key was there). -/
-example : (let r := run w1 (on 1 (mkTx 1 10 "{\"k\":\"v\"}" ++
-      P.updateTransactionMetadataAt "_default" "ledger0" 7 1 "{\"a\":\"b\"}" (tsText 40) ++
-      P.updateTransactionMetadataAt "_default" "ledger0" 7 1 "{\"a\":\"b\"}" (tsText 41) ++
-      P.deleteTransactionMetadataAt "_default" "ledger0" 7 1 "k" (tsText 50) ++
-      P.deleteTransactionMetadataAt "_default" "ledger0" 7 1 "nokey" (tsText 51)))
-    (txsAbs r.1 "_default" "ledger0", lastCols (r.2.drop 1))) =
-    ([(1, none, [("a", "b")])], [["true"], ["false"], ["true"], ["false"]]) := by
+    `Spec.markReverted` applied in order (the first date is kept), and the answers carry `modified = true`
+    the first time, `false` the second time, no row for #3. -/
+example : (let r := run w1 (on 1 (mkTx 1 10 "{\"k\":\"v\"}" ++ mkTx 2 11 "{}" ++ revertAt 1 20 ++ revertAt 1 30 ++ revertAt 3 31))
+    (revertedAbs r.1, lastCols (r.2.drop 2))) =
+    (specReverted [1, 2] [(1, 20), (1, 30), (3, 31)], [["true"], ["false"], []]) := by
   decide +kernel
 
 end Ledger.C15b
